@@ -334,6 +334,24 @@ fn one_case_sized(rep: &mut Report, model: &mut Model, rng: &mut Rng, case_no: u
                 results.push(("messages+runs sidecar damaged at its end", compile_real(&rig, anchor, &mut names)));
             }
         }
+        // (F) the checkpoint sidecar and its index unreadable: checkpoint selection has to come from the log
+        {
+            let _ = std::fs::remove_dir_all(rig.data_dir.join("continuity_streams"));
+            let _ = compile_real(&rig, anchor, &mut names);
+            let dir = rig.data_dir.join("continuity_streams");
+            let mut hit = false;
+            for suffix in ["comp.v1.jsonl", "comp.idx.v1.jsonl"] {
+                let f = dir.join(format!("{}.{suffix}", rig.thread));
+                if f.exists() {
+                    let _ = std::fs::write(&f, b"this is not a cache file\n");
+                    hit = true;
+                }
+            }
+            if hit {
+                rep.count("checkpoint_caches_overwritten");
+                results.push(("checkpoint sidecar and index overwritten with garbage", compile_real(&rig, anchor, &mut names)));
+            }
+        }
         rep.traces_validated += results.len() as u64;
         for (what, r) in &results {
             if r.contains("INCONSISTENT") {
